@@ -284,10 +284,22 @@ pub fn run_tx_replay(args: &TxArgs) -> Outcome {
                         let ks = if cell.1 == 0 { &ks1 } else { &ks2 };
                         let k = conc.key(mk - cell.1);
                         let v = step["v"].as_u64().unwrap_or(0);
-                        let newv = conc.val(v);
                         let which = (args.seed + si as u64) % 2;
                         let prev_model = step["prev"].as_u64().unwrap_or(0);
-                        let (prev, ret_new): (Option<fjall::UserValue>, Option<fjall::UserValue>) = match txs.get_mut(&t).ok_or("no tx")? {
+                        let (prev, ret_new): (Option<fjall::UserValue>, Option<fjall::UserValue>) = if v == 0 {
+                            // take(), or fetch_update with a closure that answers None
+                            match txs.get_mut(&t).ok_or("no tx")? {
+                                Tx::Opt(x) => {
+                                    if which == 0 { (x.take(ks, k).map_err(e)?, None) } else { (x.fetch_update(ks, k, |_| None).map_err(e)?, None) }
+                                }
+                                Tx::Single(x) => {
+                                    let sk = if cell.1 == 0 { sks.as_ref().unwrap() } else { sks2.as_ref().unwrap() };
+                                    if which == 0 { (x.take(sk, k).map_err(e)?, None) } else { (x.fetch_update(sk, k, |_| None).map_err(e)?, None) }
+                                }
+                            }
+                        } else {
+                        let newv = conc.val(v);
+                        match txs.get_mut(&t).ok_or("no tx")? {
                             Tx::Opt(x) => {
                                 if which == 0 {
                                     (x.fetch_update(ks, k, |_| Some(newv.clone().into())).map_err(e)?, None)
@@ -307,12 +319,13 @@ pub fn run_tx_replay(args: &TxArgs) -> Outcome {
                                     (seen, r)
                                 }
                             }
+                        }
                         };
                         let got_prev = prev.map_or(0, |b| conc.unval(&b));
                         if got_prev != prev_model {
                             return Ok(Some((si, format!("tx {t}: read-modify-write saw {got_prev}, specification {prev_model}"))));
                         }
-                        if which == 1 && ret_new.map(|b| b.to_vec()) != Some(conc.val(v)) {
+                        if v != 0 && which == 1 && ret_new.map(|b| b.to_vec()) != Some(conc.val(v)) {
                             return Ok(Some((si, format!("tx {t}: update_fetch did not return the new value"))));
                         }
                     }
@@ -342,6 +355,67 @@ pub fn run_tx_replay(args: &TxArgs) -> Outcome {
                             let s = snap.get(ks, &key).map_err(e)?.map_or(0, |b| conc.unval(&b));
                             if g != *exp || s != *exp {
                                 return Ok(Some((si, format!("after commit of tx {t}: key {} reads {g} (snapshot {s}), specification {exp}", i + 1))));
+                            }
+                        }
+                    }
+                    "Helper" => {
+                        // single-operation helpers of the transactional keyspace
+                        let mk = step["k"].as_u64().unwrap();
+                        let cell = cell_of(mk);
+                        let k = conc.key(mk - cell.1);
+                        let v = step["v"].as_u64().unwrap_or(0);
+                        let kind = step["kind"].as_str().unwrap_or("");
+                        let prev_model = step["prev"].as_u64().unwrap_or(0);
+                        let prev: Option<Option<fjall::UserValue>> = match (&oks, &sks) {
+                            (Some(_), _) => {
+                                let kk = if cell.1 == 0 { oks.as_ref().unwrap() } else { oks2.as_ref().unwrap() };
+                                match kind {
+                                    "insert" => { kk.insert(k, conc.val(v)).map_err(e)?; None }
+                                    "remove" => { kk.remove(k).map_err(e)?; None }
+                                    "take" => Some(kk.take(k).map_err(e)?),
+                                    _ => {
+                                        let nv = conc.val(v);
+                                        if (args.seed + si as u64) % 2 == 0 {
+                                            Some(kk.fetch_update(k, |_| Some(nv.clone().into())).map_err(e)?)
+                                        } else {
+                                            let mut seen = None;
+                                            let r = kk.update_fetch(k, |p| { seen = p.cloned(); Some(nv.clone().into()) }).map_err(e)?;
+                                            if r.map(|b| b.to_vec()) != Some(conc.val(v)) {
+                                                return Ok(Some((si, "helper update_fetch did not return the new value".into())));
+                                            }
+                                            Some(seen)
+                                        }
+                                    }
+                                }
+                            }
+                            (_, Some(_)) => {
+                                let kk = if cell.1 == 0 { sks.as_ref().unwrap() } else { sks2.as_ref().unwrap() };
+                                match kind {
+                                    "insert" => { kk.insert(k, conc.val(v)).map_err(e)?; None }
+                                    "remove" => { kk.remove(k).map_err(e)?; None }
+                                    "take" => Some(kk.take(k).map_err(e)?),
+                                    _ => {
+                                        let nv = conc.val(v);
+                                        Some(kk.fetch_update(k, |_| Some(nv.clone().into())).map_err(e)?)
+                                    }
+                                }
+                            }
+                            _ => unreachable!(),
+                        };
+                        if let Some(p) = prev {
+                            let got_prev = p.map_or(0, |b| conc.unval(&b));
+                            if got_prev != prev_model {
+                                return Ok(Some((si, format!("helper {kind}: previous value {got_prev}, specification {prev_model}"))));
+                            }
+                        }
+                        let store: Vec<u64> = step["store"].as_array().map(|a| a.iter().map(|x| x.as_u64().unwrap_or(0)).collect()).unwrap_or_default();
+                        for (i, exp) in store.iter().enumerate() {
+                            let cell = cell_of(i as u64 + 1);
+                            let ks = if cell.1 == 0 { &ks1 } else { &ks2 };
+                            let key = conc.key(i as u64 + 1 - cell.1);
+                            let g = ks.get(&key).map_err(e)?.map_or(0, |b| conc.unval(&b));
+                            if g != *exp {
+                                return Ok(Some((si, format!("after helper {kind}: key {} reads {g}, specification {exp}", i + 1))));
                             }
                         }
                     }
